@@ -16,7 +16,7 @@ class NotificationProtocolEntity(ProtocolEntity):
         self._from      =_from
         self.timestamp  = int(timestamp)
         self.notify     = notify
-        self.offline    = offline == "1"
+        self.offline    = None if offline is None else offline == "1"
    
 
     def __str__(self):
@@ -41,11 +41,13 @@ class NotificationProtocolEntity(ProtocolEntity):
         attribs = {
             "t"         : str(self.timestamp),
             "from"      : self._from,
-            "offline"   : "1" if self.offline else "0",
             "type"      : self._type,
-            "id"        : self._id,
-            "notify"    : self.notify
+            "id"        : self._id
         }
+        if self.offline is not None:
+            attribs["offline"] = "1" if self.offline else "0"
+        if self.notify is not None:
+            attribs["notify"] = self.notify
        
         return self._createProtocolTreeNode(attribs, children = None, data = None)
 
